@@ -2,7 +2,7 @@
    Model: Sched.v.  Ghost state: inflight = task messages written to a worker and
    not yet answered; queued = the cluster queue. *)
 From Coq Require Import List Arith ZArith Bool Permutation.
-From DV Require Import Model.Sched Proofs.SchedLib Proofs.SchedC11 Proofs.SchedBatch Proofs.SchedC03.
+From DV Require Import Model.Sched Proofs.SchedLib Proofs.SchedC11 Proofs.SchedBatch Proofs.SchedC03 Proofs.SchedExact.
 Import ListNotations.
 
 (* a released unit is handed to at most one worker and otherwise stays queued:
@@ -67,6 +67,49 @@ Theorem C03_crew_view : forall c s e,
 Proof. exact step_crew_exact. Qed.
 Print Assumptions C03_crew_view.
 
+(* ---- the property at full strength, for CLEAN histories ----
+   clean_run c (init c) es (Proofs/SchedExact.v): every reply is for a unit some
+   worker holds; a failed / invalid run of X on T never arrives while a strict
+   dependent of X is itself executing T (the overlap of the open known finding);
+   an all-targets reply comes from an analysis; a rebuild happens with nothing
+   executing.  units s = the (algorithm, target) pairs of all task messages queued
+   for a worker or handed to one and not yet answered. *)
+
+(* at most one execution of a given algorithm on a given target is in flight *)
+Theorem C03_single_flight_clean : forall c es, clean_run c (init c) es ->
+  NoDup (units (fst (run c (init c) es))).
+Proof. intros c es H. apply (clean_boot c es H). Qed.
+Print Assumptions C03_single_flight_clean.
+
+(* the scheduler's doing sets are exactly the units in flight *)
+Theorem C03_doing_is_in_flight_clean : forall c es x t, clean_run c (init c) es ->
+  let s := fst (run c (init c) es) in
+  In t (doing (getn (ns s) x)) <-> In (x, t) (units s).
+Proof. intros c es x t H. apply (clean_boot c es H). Qed.
+Print Assumptions C03_doing_is_in_flight_clean.
+
+(* every result is applied exactly once and never dropped: the last event of a
+   clean history being a reply, it writes exactly one history entry *)
+Theorem C03_never_dropped_clean : forall c es w x t r o vs,
+  clean_run c (init c) es ->
+  clean c (fst (run c (init c) es)) (Rep w x t r o vs) ->
+  snd (step c (fst (run c (init c) es)) (Rep w x t r o vs)) = [OChron x t r o].
+Proof.
+  intros c es w x t r o vs H Hc. destruct (clean_boot c es H) as (I & E & S & _).
+  apply (rep_exact c _ w x t r o vs I E S Hc).
+Qed.
+Print Assumptions C03_never_dropped_clean.
+
+(* the crew view of busy work equals the units in flight *)
+Theorem C03_crew_view_clean : forall c es, clean_run c (init c) es ->
+  let s := fst (run c (init c) es) in
+  busy s = map (fun p => msg_unit (snd p)) (inflight s).
+Proof.
+  intros c es H. destruct (init_exact c) as (E & S & N).
+  apply (run_crew c es (init c) (init_Inv c) E S N); [reflexivity|exact H].
+Qed.
+Print Assumptions C03_crew_view_clean.
+
 (* REFUTED in general (open known finding C03 duplicate-flight): chain a0 -> a1.
    a1 runs on worker 1; a0 is re-run and fails: purge removes the target from a1's
    doing although worker 1 still executes it; a1 is requested again and released to
@@ -98,3 +141,16 @@ Example C03_rerequest_example :
   let s2 := fst (run c03_chain s [Rep 1 0 1 1%Z Success [(1, 0, false)]; Tick]) in
   map (fun p => (fst p, msg_unit (snd p))) (inflight s2) = [(2, (0, 1))].
 Proof. vm_compute. repeat split; reflexivity. Qed.
+
+(* non-vacuity of the clean-history theorems: a history with a request, a release
+   and a FAILED reply (no dependent executing) is clean *)
+Example C03_clean_example :
+  clean_run c03_chain (init c03_chain)
+    [Reg 1 0 true; Org [0; 1] None [1]; Tick; Rep 1 0 1 1%Z Failure []].
+Proof.
+  cbn [clean_run]. split; [exact I|]. split; [exact I|]. split; [exact I|]. split; [|exact I].
+  unfold clean. split; [|split].
+  - exists {| m_job := 0; m_tgt := 1; m_rid := 1%Z; m_fac := Task |}. vm_compute. auto.
+  - intros _ y Ny _. vm_compute. intros [H|[]]. inversion H. congruence.
+  - intros E. discriminate.
+Qed.
